@@ -6,6 +6,7 @@ import (
 	"fmt"
 	"math/big"
 	"regexp"
+	"sort"
 	"strings"
 	"sync"
 	"time"
@@ -25,19 +26,26 @@ import (
 type Tables struct {
 	mu      sync.Mutex
 	Volumes map[[3]string][2]*big.Int // (ledger, account, asset) -> input, output
-	Seq     map[string]int64
-	Clock   int64
+	// VolBucket: the bucket (schema) whose accounts_volumes table holds the row
+	VolBucket map[[3]string]string
+	// BalanceSelects counts GetBalances selects answered by evaluating their WHERE clause on
+	// every row of the bucket; BalanceFallbacks those whose WHERE could not be evaluated and
+	// were answered from the per-pair conditions found in the text (previous behaviour).
+	BalanceSelects, BalanceFallbacks int
+	Seq                              map[string]int64
+	Clock                            int64
 	// Recorded rows of the last statements, parsed column-by-name
 	Moves        []map[string]string
 	Transactions []map[string]string
 }
 
 func NewTables() *Tables {
-	return &Tables{Volumes: map[[3]string][2]*big.Int{}, Seq: map[string]int64{}}
+	return &Tables{Volumes: map[[3]string][2]*big.Int{}, VolBucket: map[[3]string]string{}, Seq: map[string]int64{}}
 }
 
 var (
-	reInsert = regexp.MustCompile(`(?is)^INSERT INTO "([^"]+)"\.(\w+)(?: AS "?\w+"?)?\s*\(([^)]*)\)\s*VALUES\s*(.*)$`)
+	reDropSchema = regexp.MustCompile(`(?is)^DROP SCHEMA (?:IF EXISTS )?"([^"]+)"`)
+	reInsert     = regexp.MustCompile(`(?is)^INSERT INTO "([^"]+)"\.(\w+)(?: AS "?\w+"?)?\s*\(([^)]*)\)\s*VALUES\s*(.*)$`)
 )
 
 func parseTuples(s string) (tuples [][]string, rest string) {
@@ -144,6 +152,17 @@ func (t *Tables) Respond(ctx context.Context, c *pgshim.Conn, kind, sql string) 
 	if strings.HasPrefix(up, "WITH \"INS\" AS (INSERT INTO") && strings.Contains(trim, "accounts_volumes") {
 		return t.getBalances(trim)
 	}
+	if dm := reDropSchema.FindStringSubmatch(trim); dm != nil {
+		t.mu.Lock()
+		for k, b := range t.VolBucket {
+			if b == dm[1] {
+				delete(t.VolBucket, k)
+				delete(t.Volumes, k)
+			}
+		}
+		t.mu.Unlock()
+		return &pgshim.Rows{}, true, nil
+	}
 	m := reInsert.FindStringSubmatch(trim)
 	if m == nil {
 		return nil, false, nil
@@ -189,6 +208,7 @@ func (t *Tables) Respond(ctx context.Context, c *pgshim.Conn, kind, sql string) 
 			switch {
 			case !exists:
 				t.Volumes[k] = [2]*big.Int{in, out}
+				t.VolBucket[k] = m[1]
 			case doNothing:
 				continue
 			default:
@@ -273,19 +293,123 @@ func (t *Tables) Respond(ctx context.Context, c *pgshim.Conn, kind, sql string) 
 
 var reBalCond = regexp.MustCompile(`ledger = '((?:[^']|'')*)' and accounts_address = '((?:[^']|'')*)' and asset = '((?:[^']|'')*)'`)
 
-// getBalances answers GetBalances' CTE: rows that existed BEFORE the statement (the
-// select does not see the CTE's own inserts), then inserts the zero rows.
+// getBalances answers GetBalances' statement
+//
+//	WITH "ins" AS (INSERT INTO "b".accounts_volumes (…) VALUES (…),… ON conflict do nothing)
+//	SELECT … FROM "b".accounts_volumes WHERE <condition> ORDER BY "accounts_address", "asset" FOR update
+//
+// as written: the select sees the rows that existed BEFORE the statement (not the CTE's own
+// inserts); its WHERE condition is parsed with the SQL precedence and evaluated on EVERY row
+// of the bucket's accounts_volumes table, whatever ledger it belongs to - so a condition that
+// lets rows of another ledger through returns them, exactly as Postgres would. Then the
+// zero rows of the CTE are inserted.
 func (t *Tables) getBalances(sql string) (*pgshim.Rows, bool, error) {
 	t.mu.Lock()
 	defer t.mu.Unlock()
 	res := &pgshim.Rows{Cols: []string{"accounts_address", "asset", "input", "output"}}
+	ts := lexSQL(sql)
+	// the CTE group and the main select
+	var cte []sqlTok
+	mainFrom := 0
+	if len(ts) > 4 && ts[0].isWord("WITH") && ts[2].isWord("AS") && ts[3].kind == tkLP {
+		d := 0
+		for i := 3; i < len(ts); i++ {
+			if ts[i].kind == tkLP {
+				d++
+			} else if ts[i].kind == tkRP {
+				d--
+				if d == 0 {
+					cte = ts[4:i]
+					mainFrom = i + 1
+					break
+				}
+			}
+		}
+	}
+	main := ts[mainFrom:]
+	bucket := ""
+	if f := depth0Index(main, 0, "FROM"); f >= 0 && f+3 < len(main) && main[f+1].kind == tkIdent && main[f+2].text == "." && main[f+3].text == "accounts_volumes" {
+		bucket = main[f+1].text
+	}
+	evaluated := false
+	if w, _, ok := topLevelClause(main, 0, "WHERE", whereTerminators); ok && bucket != "" && main[0].isWord("SELECT") {
+		if cond, err := parseBool(w); err == nil {
+			var keys [][3]string
+			for k, b := range t.VolBucket {
+				if b == bucket {
+					keys = append(keys, k)
+				}
+			}
+			// ORDER BY accounts_address, asset (rows of several ledgers: by ledger, deterministic)
+			sort.Slice(keys, func(i, j int) bool {
+				a, b := keys[i], keys[j]
+				if a[1] != b[1] {
+					return a[1] < b[1]
+				}
+				if a[2] != b[2] {
+					return a[2] < b[2]
+				}
+				return a[0] < b[0]
+			})
+			var data [][]driver.Value
+			evaluated = true
+			for _, k := range keys {
+				v := t.Volumes[k]
+				hit, err := evalBool(cond, sqlRow{"ledger": k[0], "accounts_address": k[1], "asset": k[2], "input": v[0].String(), "output": v[1].String()})
+				if err != nil {
+					evaluated = false
+					break
+				}
+				if hit {
+					data = append(data, []driver.Value{k[1], k[2], v[0].String(), v[1].String()})
+				}
+			}
+			if evaluated {
+				res.Data = data
+			}
+		}
+	}
+	if evaluated {
+		t.BalanceSelects++
+		// the CTE's insert … on conflict do nothing
+		if m := reInsert.FindStringSubmatch(strings.TrimSpace(toksSrc(sql, cte))); m != nil && m[2] == "accounts_volumes" {
+			cols := splitTop(m[3])
+			tuples, _ := parseTuples(m[4])
+			li, ai, si := colIndex(cols, "ledger"), colIndex(cols, "accounts_address"), colIndex(cols, "asset")
+			if li >= 0 && ai >= 0 && si >= 0 {
+				for _, tp := range tuples {
+					if li >= len(tp) || ai >= len(tp) || si >= len(tp) {
+						continue
+					}
+					k := [3]string{unq(tp[li]), unq(tp[ai]), unq(tp[si])}
+					if _, ok := t.Volumes[k]; !ok {
+						t.Volumes[k] = [2]*big.Int{new(big.Int), new(big.Int)}
+						t.VolBucket[k] = m[1]
+					}
+				}
+			}
+		}
+		return res, true, nil
+	}
+	t.BalanceFallbacks++
 	for _, m := range reBalCond.FindAllStringSubmatch(sql, -1) {
 		k := [3]string{strings.ReplaceAll(m[1], "''", "'"), strings.ReplaceAll(m[2], "''", "'"), strings.ReplaceAll(m[3], "''", "'")}
 		if v, ok := t.Volumes[k]; ok {
 			res.Data = append(res.Data, []driver.Value{k[1], k[2], v[0].String(), v[1].String()})
 		} else {
 			t.Volumes[k] = [2]*big.Int{new(big.Int), new(big.Int)}
+			if bucket != "" {
+				t.VolBucket[k] = bucket
+			}
 		}
 	}
 	return res, true, nil
+}
+
+// toksSrc is the source text spanned by a token run.
+func toksSrc(sql string, ts []sqlTok) string {
+	if len(ts) == 0 {
+		return ""
+	}
+	return sql[ts[0].pos:ts[len(ts)-1].end]
 }
